@@ -273,7 +273,7 @@ fn run_one(out: &mut Out, case: &Value, rs: &RunSpec) -> Option<http::HeaderMap>
         let (hint, eos) = match pre {
             Ok(p) => p,
             Err(msg) => {
-                out.emit(json!({"ev": "poll", "res": "panic", "where": "hint", "msg": msg, "n": 0,
+                out.emit(json!({"ev": "poll", "res": "panic", "where": "hint", "msg": msg, "n": 0, "nexts": [],
                                 "lo": limbs(0), "up": none(), "eos": false, "errk": "", "env": drain_env(&log)}));
                 stopped = "panic";
                 break;
@@ -283,7 +283,8 @@ fn run_one(out: &mut Out, case: &Value, rs: &RunSpec) -> Option<http::HeaderMap>
         flag.0.store(false, Ordering::SeqCst);
         let r = catch(|| Pin::as_mut(&mut body).poll_frame(&mut cx));
         let env = drain_env(&log);
-        let mut ev = json!({"ev": "poll", "lo": lo, "up": up, "eos": eos, "n": 0, "errk": "", "env": env});
+        let nexts = log.lock().unwrap().nexts_json();
+        let mut ev = json!({"ev": "poll", "lo": lo, "up": up, "eos": eos, "n": 0, "errk": "", "env": env, "nexts": nexts});
         match r {
             Err(msg) => {
                 ev["res"] = json!("panic");
